@@ -212,6 +212,9 @@ class FloatSource(Source):
             components = ['S', 'T']
         if len(components) == 3 and components[0] == 'S' and components[1] == 'T' and components[2] == 'P':
             components = ['S', 'T']
+            if data.size % 3 != 0:
+                raise DaeMalformedError(
+                    'data.size `%d` of source %s isn\'t reshapable into `(-1, 3)`!' % (data.size, sourceid))
             data.shape = (-1, 3)
             # remove 3d texcoord dimension because we don't support it
             data = numpy.delete(data, -1, 1)
